@@ -95,6 +95,18 @@ def run(ctx):
     ]
 
 
+def selftest(ctx):
+    build_harness()
+    tr = ctx.work / "st-ctrace.ndjson"
+    vh(["c01-trace", "checkpoints=1", "nogdef=1", "seed=13", "n=40", "len=30", f"out={tr}"])
+    def flip(e):
+        if e.get("ev") != "checkpoint" or "obs" not in e: return None
+        e["obs"][0] = (e["obs"][0] + 1) % 3
+        return e
+    selftest_traces(ctx, "read-after-checkpoint-corrupted", "Trace_TexGroups", "Trace_TexGroups.cfg", tr, flip)
+    ctx.cov["rule"] = "selftest: a checkpoint that changes a read must be rejected"
+
+
 def replay(path):
     r = json.load(open(path))
     print(json.dumps({k: v for k, v in r.items() if k != "events"}, indent=1)[:3000])
